@@ -466,5 +466,8 @@ func baselineKind(full string) bool {
 		return false
 	}
 	n := full[i+1:]
+	if strings.HasPrefix(n, "at:") && !strings.HasPrefix(n, "at:lemma") {
+		return true // property-carrying anchored assert (proof hints are labelled lemma-*)
+	}
 	return strings.HasPrefix(n, "ensures#") || (strings.HasPrefix(n, "loop") && strings.Contains(n, "/inv-") && !strings.Contains(n, "#auto"))
 }
